@@ -506,10 +506,19 @@ def script_deploy(ex):
         lambda I, a, kw: _Layer('microversion', a[0])
     k[fault_wrap.FaultWrapper] = lambda I, a, kw: _Layer('fault', a[0])
     k[pauth.PlacementKeystoneContext] = lambda I, a, kw: _Layer('context', a[0])
-    k[pauth.NoAuthMiddleware] = lambda I, a, kw: _Layer('auth', a[0])
+    kinds = []
+
+    def noauth(I, a, kw):
+        kinds.append('noauth')
+        return _Layer('auth', a[0])
+
+    def keystone(I, a, kw):
+        kinds.append('keystone')
+        return _Factory('auth')
+    k[pauth.NoAuthMiddleware] = noauth
     k[requestlog.RequestLog] = lambda I, a, kw: _Layer('request_log', a[0])
     k[oslo_middleware.HTTPProxyToWSGI] = lambda I, a, kw: _Layer('proxy', a[0])
-    c[id(pauth.filter_factory)] = lambda I, a, kw: _Factory('auth')
+    c[id(pauth.filter_factory)] = keystone
     c[id(oslo_middleware.CORS.factory)] = lambda I, a, kw: _Factory('cors')
     c[id(oslo_middleware.CORS.factory.__func__)] = \
         lambda I, a, kw: _Factory('cors')
@@ -535,6 +544,20 @@ def script_deploy(ex):
         < pos['handler'] and chain.count('auth') == 1
     ex.oblige('C16.T.deploy.auth_then_context_then_handler', ok, 'T',
               {'chain': chain})
+    # the unauthenticated test middleware stands in for keystone only when
+    # the operator asked for it
+    strategy = I.ghost.get(('dconfval', ('api', 'auth_strategy')))
+    if strategy is None or len(kinds) != 1:
+        ex.oblige('C16.T.deploy.noauth_only_when_configured', False, 'T',
+                  {'auth middlewares built': kinds})
+    else:
+        from pyvc.values import StrSort
+        ex.oblige('C16.T.deploy.noauth_only_when_configured',
+                  z3.BoolVal(kinds[0] == 'noauth') ==
+                  (strategy.t == I.str_const('noauth2')
+                   if hasattr(I, 'str_const') else
+                   ops.to_term('noauth2', 'str') == strategy.t), 'T',
+                  {'auth middleware': kinds[0]})
 
 
 if __name__ == '__main__':
